@@ -100,7 +100,15 @@ def check(job):
     try:
         mol0, ks0 = build(np.eye(3), np.zeros(3), [0, 1, 2], cfg, job["level"], job["seed"], job.get("base", "OHF"))
         ref = invariants(mol0, ks0, job["features"])
-        mol1, ks1 = build(R, t, perm, cfg, job["level"], job["seed"], job.get("base", "OHF"))
+        if job.get("inplace"):
+            # the SAME molecule, grid and calculator objects: the atoms are moved in place (mol.set_geom_) and the grid is
+            # rebuilt on the same object; everything derived from atom positions must follow
+            coords = mol0.atom_coords(unit="Bohr").dot(R.T) + t / 0.52917721092
+            mol0.set_geom_(coords, unit="Bohr")
+            ks0.grids.build(with_non0tab=True)
+            mol1, ks1 = mol0, ks0
+        else:
+            mol1, ks1 = build(R, t, perm, cfg, job["level"], job["seed"], job.get("base", "OHF"))
         new = invariants(mol1, ks1, job["features"])
     except Exception as ex:
         return {"id": job["id"], "viol": [{"site": "exception:%s:%s" % (type(ex).__name__, tag), "detail": {"job": job, "msg": str(ex)[:300]}}], "n": 0}
@@ -159,9 +167,9 @@ def main():
         gsel, fams_q = G, fams
     jobs = []
 
-    def add(kind, R, t, perm, cfg, level=0, features=True, tol=None, base="OHF"):
+    def add(kind, R, t, perm, cfg, level=0, features=True, tol=None, base="OHF", inplace=False):
         jobs.append({"id": len(jobs), "kind": kind, "R": np.asarray(R).tolist(), "t": list(t), "perm": list(perm), "cfg": cfg, "level": level,
-                     "features": features, "seed": 3, "tol": tol, "base": base})
+                     "features": features, "seed": 3, "tol": tol, "base": base, "inplace": inplace})
     for cfg in fams_q:
         for R in gsel:
             add("octahedral", R, (0, 0, 0), (0, 1, 2), cfg)
@@ -173,6 +181,10 @@ def main():
                 add("atom-permutation:repeated-element", np.eye(3), (0, 0, 0), perm, cfg, features=(perm == (1, 0, 2)), base="OHH")
         add("octahedral+permutation:repeated-element", gsel[7], (0, 0, 0), (1, 0, 2), cfg, level=1, features=False, base="OHH")
         add("translation", np.eye(3), (1.37, -2.2, 0.61), (0, 1, 2), cfg)
+        # rigid motions applied IN PLACE to the same molecule / grid / calculator objects
+        add("in-place:translation", np.eye(3), (0.9, -1.4, 0.35), (0, 1, 2), cfg, inplace=True)
+        add("in-place:octahedral", gsel[5], (0, 0, 0), (0, 1, 2), cfg, inplace=True)
+        add("in-place:octahedral+translation", gsel[20], (-0.6, 0.2, 1.1), (0, 1, 2), cfg, features=False, inplace=True, base="OHH")
         add("octahedral+translation+permutation", gsel[1], (0.3, 0.9, -1.1), (2, 0, 1), cfg, features=False)
         if not quick:
             for lvl, tol in ((1, 3e-5), (3, 3e-6)):
